@@ -298,6 +298,10 @@ func runStopDuringClose() (*cloObs, string) {
 // kind 10: the broker is shut down while a publisher's QoS 1 messages for a durable session that is away are still in
 //          the routing queue: after the restart the session is sent every message that was acknowledged to the
 //          publisher (C20 "undelivered messages of durable sessions are handed to persistence before shutdown returns")
+// kind 11: like kind 0, but the stalled client has sent DISCONNECT first: the broker's own handling of that DISCONNECT
+//          stops the writer too, and must not wait for the stalled peer either (C10)
+// kind 12: the stalled client has sent DISCONNECT, then the broker is stopped: Stop returns AND the connection is closed
+//          (C20 "every open connection is closed"), seen by the client, which still reads nothing, in its own writes
 // kind 3: not stalled but SLOW: a v5 client that keeps reading (64 bytes per millisecond) while 30 KB are on their way
 //         to it is taken over (C10: the new CONNECT is answered; the old connection gets "DISCONNECT 'session taken
 //         over'" - as a packet: everything it is sent decodes, and that DISCONNECT is the last thing before the end)
@@ -362,12 +366,17 @@ func runStalled(kind int) (*stallObs, string) {
 		_ = pa.SendL(mkPublish(mqttp.ProtocolV311, "t", make([]byte, 100), 0, false, 0))
 	}
 	time.Sleep(200 * time.Millisecond)
+	if kind == 11 || kind == 12 {
+		// the stalled client says DISCONNECT (its sending direction is free) and goes on neither reading nor closing
+		_ = c.Send(mqttp.NewDisconnect(mqttp.ProtocolV311))
+		time.Sleep(100 * time.Millisecond)
+	}
 	switch kind {
-	case 0:
+	case 0, 11:
 		c2 := b.Dial()
 		_, err := c2.Connect(ConnectOpts{ID: "st", Ver: mqttp.ProtocolV311, Clean: true})
 		obs.OK = err == nil
-	case 1:
+	case 1, 12:
 		atomic.StoreInt32(&b.mgrDown, 1)
 		done := make(chan struct{})
 		go func() { _ = b.Mgr.Stop(); _ = b.Mgr.Shutdown(); close(done) }()
@@ -378,6 +387,17 @@ func runStalled(kind int) (*stallObs, string) {
 		}
 	default:
 		obs.OK = w.WaitFor(5*time.Second, func() bool { return len(w.Pubs) >= 1 })
+	}
+	if kind == 12 {
+		// the client still does not read: whether the broker has closed its end shows in the client's own writes
+		dl := time.Now().Add(3 * time.Second)
+		for time.Now().Before(dl) && !obs.Closed {
+			if err := c.SendRaw([]byte{0xC0, 0x00}); err != nil {
+				obs.Closed = true
+			}
+			time.Sleep(20 * time.Millisecond)
+		}
+		return obs, ""
 	}
 	// what the broker had written before it was blocked is still in the pipe: drain it, then the end must follow
 	dl := time.Now().Add(3 * time.Second)
